@@ -23,6 +23,76 @@ namespace Givaro {
 
     // ----- Initialisation
 
+    // -- helpers of the init overloads (found by argument-dependent lookup on the ring)
+
+    // integer-valued floating source: exact through int64_t when the value fits, through Integer
+    // otherwise (Source(_p) is not exact for p > 2^24 / 2^53, and a conversion of y to the storage
+    // type is undefined when y is outside its range)
+    template<typename Ring, typename Source>
+    inline typename Ring::Element&
+    _init_floating (const Ring& F, typename Ring::Element& x, const Source y)
+    {
+        if (!std::isfinite(y)) return x = F.zero;
+        if (y > Source(-9223372036854775808.0) && y < Source(9223372036854775808.0))
+            return F.init(x, static_cast<int64_t>(y));
+        return F.init(x, Integer(static_cast<double>(y)));
+    }
+
+    // unsigned storage, source not wider than the storage
+    template<typename Ring, typename Source,
+             typename std::enable_if<IS_FLOAT(Source), int>::type = 0>
+    inline typename Ring::Element&
+    _init_small_u (const Ring& F, typename Ring::Element& x, const Source& y)
+    {
+        return _init_floating(F, x, y);
+    }
+    template<typename Ring, typename Source,
+             typename std::enable_if<IS_INT(Source), int>::type = 0>
+    inline typename Ring::Element&
+    _init_small_u (const Ring& F, typename Ring::Element& x, const Source& y)
+    {
+        // magnitude computed in the (unsigned, at least as wide) storage type: -y overflows for the minimum of Source
+        typedef typename Ring::Element Element;
+        const Element uy = (y < 0) ? Element(Element(0) - Caster<Element>(y)) : Caster<Element>(y);
+        F.reduce(x, uy);
+        if (y < 0) F.negin(x);
+        return x;
+    }
+    template<typename Ring, typename Source,
+             typename std::enable_if<!(IS_FLOAT(Source)) && !(IS_INT(Source)), int>::type = 0>
+    inline typename Ring::Element&
+    _init_small_u (const Ring& F, typename Ring::Element& x, const Source& y)
+    {
+        F.reduce(x, Caster<typename Ring::Element>((y < 0)? -y : y));
+        if (y < 0) F.negin(x);
+        return x;
+    }
+
+    // signed storage, source not wider than the storage
+    template<typename Ring, typename Source,
+             typename std::enable_if<IS_FLOAT(Source), int>::type = 0>
+    inline typename Ring::Element&
+    _init_small_s (const Ring& F, typename Ring::Element& x, const Source& y)
+    {
+        return _init_floating(F, x, y);
+    }
+    template<typename Ring, typename Source,
+             typename std::enable_if<IS_UINT(Source), int>::type = 0>
+    inline typename Ring::Element&
+    _init_small_s (const Ring& F, typename Ring::Element& x, const Source& y)
+    {
+        // reduce before narrowing: a value >= 2^(N-1) does not fit the signed storage type
+        typedef typename std::common_type<Source, typename Ring::Residu_t>::type Common_t;
+        return x = Caster<typename Ring::Element>(Common_t(y) % Common_t(F.residu()));
+    }
+    template<typename Ring, typename Source,
+             typename std::enable_if<!(IS_FLOAT(Source)) && !(IS_UINT(Source)), int>::type = 0>
+    inline typename Ring::Element&
+    _init_small_s (const Ring& F, typename Ring::Element& x, const Source& y)
+    {
+        return F.reduce(Caster<typename Ring::Element>(x,y));
+    }
+
     TMPL
     inline typename MOD::Element&
     MOD::init (Element& x) const
@@ -44,7 +114,10 @@ namespace Givaro {
     inline typename MOD::Element&
     MOD::init (Element& x, const Source y) const
     {
-        x = Caster<Element>((y<0 ? -y : y) % Source(_p));
+        // magnitude in the unsigned type: -y overflows for the minimum of Source
+        typedef typename std::make_unsigned<Source>::type USource;
+        const USource uy = (y < 0) ? USource(USource(0) - USource(y)) : USource(y);
+        x = Caster<Element>(uy % USource(_p));
         return (y < 0 ? negin(x) : x);
     }
 
@@ -53,9 +126,7 @@ namespace Givaro {
     inline typename MOD::Element&
     MOD::init (Element& x, const Source y) const
     {
-        x = Caster<Element>(std::fmod(y, Source(_p)));
-        if (x < Source(0.0)) x = Caster<Element>(x + _p);
-        return x;
+        return _init_floating(*this, x, y);
     }
 
     TMPL
@@ -63,8 +134,7 @@ namespace Givaro {
     inline typename MOD::Element&
     MOD::init (Element& x, const Source y) const
     {
-        x = Caster<Element>(std::fmod((y < 0.0 ? -y : y), Source(_p)));
-        return ( (y < 0.0) ? negin(x) : x);
+        return _init_floating(*this, x, y);
     }
 
     TMPL
@@ -85,9 +155,7 @@ namespace Givaro {
     inline typename MOD::Element&
     MOD::init (Element& x, const Source& y) const
     {
-        reduce(x, Caster<Element>((y < 0)? -y : y));
-        if (y < 0) negin(x);
-        return x;
+        return _init_small_u(*this, x, y);
     }
 
     TMPL
@@ -97,7 +165,7 @@ namespace Givaro {
     inline typename MOD::Element&
     MOD::init (Element& x, const Source& y) const
     {
-        return reduce(Caster<Element>(x,y));
+        return _init_small_s(*this, x, y);
     }
 
 
